@@ -3834,7 +3834,8 @@ class Fn:
     def x3_call(self, e, kws):
         f = e.func
         oracles = self.x3_oracles()
-        if isinstance(f, ast.Attribute) and f.attr == "split" and not e.args and not kws:
+        if isinstance(f, ast.Attribute) and f.attr in ("split", "rsplit") and not e.args and not kws:
+            # x10: without arguments `rsplit()` is `split()`: maximal runs of white space separate, no limit
             self.ctx.imports.add("PkgModel.PyLic")
             return False, f"PyLic.str_split0 {self.val(f.value)}"
         if isinstance(f, ast.Attribute) and f.attr == "translate" and len(e.args) == 1 and not kws and isinstance(e.args[0], ast.Name) \
